@@ -25,14 +25,19 @@ SPECS = {
                     "CBMC out of memory at 2 updates)"],
     },
     "C35": {
-        "quick": ["c35_pair", "c35_triple", "c35_num_triple"],
+        "quick": ["c35_pair", "c35_triple", "c35_num_triple", "c35_sort2"],
         "thorough": [],
-        "functions": ["inputlayer::protocol::handler::compare_wire_values", "wire_value_type_rank"],
+        "functions": ["inputlayer::protocol::handler::compare_wire_values", "wire_value_type_rank", "cmp_f64_for_sort",
+                      "cmp_i64_f64", "sort_rows (two rows)"],
         "bounds": {"*": "Option<&WireValue>: absent, Null, Int32, Int64, Float64 (every bit pattern), Bool, Timestamp, "
-                        "String in {\"a\",\"b\"}, empty Vector/VectorInt8/Bytes; all pairs and triples"},
+                        "String in {\"a\",\"b\"}, empty Vector/VectorInt8/Bytes; all pairs and triples",
+                   "c35_num_triple": "triples over Int64 / Float64 (every bit pattern)",
+                   "c35_sort2": "sort_rows on two one-column rows with arbitrary Int64/Float64 values, both directions: "
+                                "no panic, output ordered and a permutation of the input"},
         "assumptions": ["Kani/CBMC model of dev-profile MIR", "a comparator that is a total preorder makes slice::sort_by "
                         "total and order-correct; Asc/Desc reversal and lexicographic composition preserve the contract"],
-        "outside": ["sort_rows/apply_pagination over Vec<WireTuple> (not tractable under CBMC)", "total_count",
+        "outside": ["sort_rows on more than two rows; apply_pagination (three concrete rows with symbolic limit/offset: CBMC "
+                    "timed out at 900 s) - the slice arithmetic of pagination is not decided", "total_count",
                     "strings longer than 1 byte (String::cmp is std)"],
     },
     "C28": {
